@@ -9,6 +9,7 @@ import (
 	"errors"
 	"fmt"
 	"log/slog"
+	"strings"
 	"testing"
 	"time"
 
@@ -270,14 +271,32 @@ func TestC19(t *testing.T) {
 				st.Record(metrics.DroppedResult, 0)
 			}
 			res.GetTotals()
-			if r.Chance(40) {
+			lateErr := r.Chance(40)
+			if lateErr {
 				res.AddError(errors.New("teardown failed"))
 			}
 			sn := res.Snapshot()
 			ss, fs, ps = sn.SuccessfulIterationDurations, sn.FailedIterationDurations, sn.SuccessfulIterationDurationsForPeriod
 			snap.Period = sn.Period
-			if e := res.Error(); e != nil {
-				eo = kit.List(kit.Str(e.Error()))
+			// the error the summary is expected to show: the one error, or all of them numbered
+			var texts []string
+			if len(errs) > 0 {
+				texts = append(texts, "setup failed")
+			}
+			if lateErr {
+				texts = append(texts, "teardown failed")
+			}
+			switch len(texts) {
+			case 0:
+			case 1:
+				eo = kit.List(kit.Str(texts[0]))
+			default:
+				parts := make([]string, len(texts))
+				for k, tx := range texts {
+					parts[k] = fmt.Sprintf("Error %d: %s", k, tx)
+				}
+				eo = kit.List(kit.Str(strings.Join(parts, "; ")))
+				o.Count("glue", "result with two errors")
 			}
 			o.Count("glue", "recorded, totals, late error")
 		} else {
